@@ -895,6 +895,17 @@ func subReaderNext() mon.Sub {
 				f2 = gen.Build(s2, []ref.Side{ref.SideClient, ref.SideServer}[c.I%2], c.Rng, true)
 				side = ref.SideNone
 			}
+			if c.I%5 == 3 {
+				// the peer masks all its frames with one key
+				k := [4]byte{0x11, 0x22, 0x33, byte(c.I)}
+				for _, fs := range [][]ref.Frame{f1, f2} {
+					for i := range fs {
+						if fs[i].H.Masked {
+							fs[i].H.Mask = k
+						}
+					}
+				}
+			}
 			// make the first message's text end in the middle of a code point when discarded after one byte
 			for i := range f1 {
 				if !ref.IsControl(f1[i].H.Op) && len(f1[i].Payload) == 3 {
